@@ -108,14 +108,23 @@ EncList(D, vs) == FlatSeq([i \in 1..Len(vs) |-> EncPacket(D, vs[i])])
 \* short or non-version-2 header, or a frame longer than what is left is an
 \* error; any frame that must be rejected makes the whole datagram an error
 \* (all-or-nothing, C06).
-RECURSIVE SplitFrames(_, _)
-SplitFrames(b, acc) ==
-  IF b = << >> THEN [ok |-> TRUE, frames |-> acc]
-  ELSE IF Len(b) < 4 \/ HVer(b) # 2 \/ 4 * (HLen(b) + 1) > Len(b) THEN [ok |-> FALSE, frames |-> acc]
-  ELSE SplitFrames(From(b, 4 * (HLen(b) + 1)), Append(acc, Take(b, 4 * (HLen(b) + 1))))
+\* (the cursor is an offset: only the frames themselves are copied)
+RECURSIVE SplitFrom(_, _, _)
+SplitFrom(b, off, acc) ==
+  IF off = Len(b) THEN [ok |-> TRUE, frames |-> acc]
+  ELSE IF Len(b) - off < 4 \/ At(b, off) \div 64 # 2 \/ 4 * (U16At(b, off + 2) + 1) > Len(b) - off THEN [ok |-> FALSE, frames |-> acc]
+  ELSE SplitFrom(b, off + 4 * (U16At(b, off + 2) + 1), Append(acc, Sl(b, off, 4 * (U16At(b, off + 2) + 1))))
+SplitFrames(b, acc) == SplitFrom(b, 0, acc)
 
 DecFrame(D, f) == DecAs(D, Kind(D, HPT(f), HC(f)), f)
 
+\* the same with the split already done
+DecSplit(D, sp) ==
+  IF ~sp.ok \/ sp.frames = << >> THEN Rej
+  ELSE LET rs == [i \in 1..Len(sp.frames) |-> DecFrame(D, sp.frames[i])] IN
+       IF \E i \in 1..Len(rs) : rs[i].st = "rej" THEN Rej
+       ELSE IF \E i \in 1..Len(rs) : rs[i].st = "na" THEN NA
+       ELSE Ok([i \in 1..Len(rs) |-> rs[i].v])
 DecDatagram(D, b) ==
   LET sp == SplitFrames(b, << >>) IN
   IF ~sp.ok \/ sp.frames = << >> THEN Rej
